@@ -178,8 +178,8 @@ type Interp struct {
 	Ext map[string]func(in *Interp, op Op) error
 	Cnt map[string]int
 	// OnClose releases resources of derived checks.
-	OnClose  []func()
-	Lenient  bool // AllVersions results compared as mustRetain ⊆ seen ⊆ written (always true after compactions)
+	OnClose []func()
+	Lenient bool // AllVersions results compared as mustRetain ⊆ seen ⊆ written (always true after compactions)
 }
 
 func val(seq, size int) []byte {
@@ -1090,7 +1090,7 @@ func (in *Interp) reconcileAfterReopen() error {
 	r := in.db.NewTransaction(false)
 	R := r.ReadTs()
 	r.Discard()
-	if R >= in.m.MaxVersion() {
+	if R >= in.m.MaxVersion() && (len(in.commits) == 0 || in.commits[len(in.commits)-1].ts <= R) {
 		return nil
 	}
 	for k, vs := range in.m.Keys {
